@@ -163,3 +163,51 @@ package integrate
 //@   ensures [err-zoom] !(0 <= zoom && zoom <= 35) ==> r1 != nil && len(r0) == 0
 //@   ensures [err-arity] (exists k :: 0 <= k && k < len(spatialIds) && nf(spatialIds[k]) != 4) ==> r1 != nil && len(r0) == 0
 //@ end
+
+//@ -- C15 / C04 (error behaviour and duplicate-freedom only): the merge.  The unit-cell helpers keep aliased maps
+//@ -- (outside the verified subset); they are ASSUMED to terminate without panicking and to touch only their own objects.
+//@ func NewUnitDividedSpatialID
+//@   trusted
+//@   fresh r0
+//@   requires s != nil
+//@   ensures r0 != nil && r0.ExtendedSpatialID == s
+//@ end
+//@ func NewHighSpatialID
+//@   trusted
+//@   fresh r0
+//@   requires u != nil && u.ExtendedSpatialID != nil
+//@   ensures r0 != nil && r0.ExtendedSpatialID != nil
+//@ end
+//@ func (*HighSpatialID).Merge
+//@   trusted
+//@   assigns r.lowIDs
+//@   assigns r.unitIDs
+//@ end
+//@ func HighSpatialID.IsDense
+//@   trusted
+//@ end
+//@ func MergeExtendedSpatialIds
+//@   props C15 C04 C16
+//@   nooverflow
+//@   localeffects
+//@   requires forall k :: 0 <= k && k < len(extendedSpatialIds) ==> (isext(extendedSpatialIds[k]) ==> 0 <= val(fld(extendedSpatialIds[k], 0)) && val(fld(extendedSpatialIds[k], 0)) <= 35 && 0 <= val(fld(extendedSpatialIds[k], 3)) && val(fld(extendedSpatialIds[k], 3)) <= 35)
+//@   ensures [err-zoom] !(0 <= hZoom && hZoom <= 35 && 0 <= vZoom && vZoom <= 35) ==> r1 != nil && len(r0) == 0
+//@   ensures [err-malformed] 0 <= hZoom && hZoom <= 35 && 0 <= vZoom && vZoom <= 35 && (exists k :: 0 <= k && k < len(extendedSpatialIds) && !isext(extendedSpatialIds[k])) ==> r1 != nil
+//@   ensures [ok-otherwise] 0 <= hZoom && hZoom <= 35 && 0 <= vZoom && vZoom <= 35 && (forall k :: 0 <= k && k < len(extendedSpatialIds) ==> isext(extendedSpatialIds[k])) ==> r1 == nil
+//@   ensures [nodup] r1 == nil ==> nodup(r0)
+//@   loopframe
+//@   loop 0 invariant forall k :: 0 <= k && k < $i ==> isext(extendedSpatialIds[k])
+//@   loop 0 invariant forall k :: 0 <= k && k < len(spatialIDs) ==> spatialIDs[k] != nil
+//@   loop 1 invariant forall k :: 0 <= k && k < len(spatialIDs) ==> spatialIDs[k] != nil
+//@   loop 1 invariant forall k :: 0 <= k && k < len(unitSpatialIDs) ==> unitSpatialIDs[k] != nil && unitSpatialIDs[k].ExtendedSpatialID != nil
+//@   loop 2 invariant forall k :: 0 <= k && k < len(unitSpatialIDs) ==> unitSpatialIDs[k] != nil && unitSpatialIDs[k].ExtendedSpatialID != nil
+//@   loop 2 invariant forall key: str :: has(highSpatialIDs, key) ==> mget(highSpatialIDs, key) != nil && mget(highSpatialIDs, key).ExtendedSpatialID != nil
+//@   loop 3 invariant forall key: str :: has(highSpatialIDs, key) ==> mget(highSpatialIDs, key) != nil && mget(highSpatialIDs, key).ExtendedSpatialID != nil
+//@ end
+//@ func MergeSpatialIds
+//@   props C15 C04
+//@   nooverflow
+//@   requires forall k :: 0 <= k && k < len(spatialIds) ==> (nf(spatialIds[k]) == 4 && isnum(fld(spatialIds[k], 0)) ==> 0 <= val(fld(spatialIds[k], 0)) && val(fld(spatialIds[k], 0)) <= 35)
+//@   ensures [err-zoom] !(0 <= zoom && zoom <= 35) ==> r1 != nil && len(r0) == 0
+//@   ensures [err-arity] (exists k :: 0 <= k && k < len(spatialIds) && nf(spatialIds[k]) != 4) ==> r1 != nil && len(r0) == 0
+//@ end
